@@ -28,6 +28,20 @@ var GenesisHash = func() (h [32]byte) {
 	return
 }()
 
+// GenesisFor is the genesis hash the harness uses for a network mode: gocoin recognises the test
+// networks by the first (0x43) and second (0xf0: testnet4) byte of the genesis hash, and only the
+// difficulty exceptions depend on it once Configure has set the consensus heights.
+func GenesisFor(net int) [32]byte {
+	g := GenesisHash
+	switch net {
+	case 3:
+		g[0] = 0x43
+	case 4:
+		g[0], g[1] = 0x43, 0xf0
+	}
+	return g
+}
+
 type Opts struct {
 	Params      refchain.Params
 	ChainOpts   chain.NewChanOpts
@@ -72,7 +86,8 @@ func Open(dir string, o *Opts) *Env {
 	os.MkdirAll(dir, 0o755)
 	co := o.ChainOpts
 	bo := o.BlockDBOpts
-	ch := chain.NewChainExt(dir+"/", btc.NewUint256(GenesisHash[:]), o.Rescan, &co, &bo)
+	gen := GenesisFor(o.Params.Net)
+	ch := chain.NewChainExt(dir+"/", btc.NewUint256(gen[:]), o.Rescan, &co, &bo)
 	Configure(ch, o.Params)
 	return &Env{Dir: dir, Ch: ch, P: o.Params}
 }
